@@ -404,7 +404,12 @@ func (c *Cluster) shadowBootstrap(victim *SimNode, torn float64, phase string) {
 	if err := copyDir(victim.dbPath, img); err != nil {
 		panic(harnessError{"copy db: " + err.Error()})
 	}
-	defer os.RemoveAll(img)
+	kept := false
+	defer func() {
+		if !kept {
+			os.RemoveAll(img)
+		}
+	}()
 	if torn > 0 && phase == "post" {
 		name, now := vlogSize(img)
 		if name != "" && now > victim.preVlog+1 {
@@ -457,6 +462,9 @@ func (c *Cluster) shadowBootstrap(victim *SimNode, torn float64, phase string) {
 		bs, sh.trans, sh.app)
 	sh.started = true
 	defer func() {
+		if kept {
+			return
+		}
 		defer func() { recover() }()
 		sh.node.Shutdown()
 	}()
@@ -468,6 +476,86 @@ func (c *Cluster) shadowBootstrap(victim *SimNode, torn float64, phase string) {
 	c.stats.fault("crash-point-" + phase)
 	upper := victim.core().KnownEvents()
 	c.checkRecovery(victim, sh, victim.epoch, victim.lastKnown, upper)
+	// shadow continuation: a few of the recovered images stay alive; at the end of
+	// the run they are fed the rest of the history and must deliver the canonical
+	// chain ("resumes and remains in agreement with the rest of the network")
+	if c.cfg.Profile == "C11" && len(c.violations) == nviol && torn == 0 && !victim.ffDone && len(c.keptShadows) < 3 && c.inner.Bool(0.2) {
+		kept = true
+		c.keptShadows = append(c.keptShadows, &keptShadow{sh: sh, img: img, victim: victim.idx, point: victim.storePoints, phase: phase})
+		c.stats.probe("shadow-kept-for-continuation")
+	}
+}
+
+type keptShadow struct {
+	sh     *SimNode
+	img    string
+	victim int
+	point  int
+	phase  string
+}
+
+// continueShadows feeds every kept recovered image the events it lacks (in a
+// topological order of the record) and compares what its application receives
+// with the canonical chain.
+func (c *Cluster) continueShadows() {
+	if len(c.keptShadows) == 0 {
+		return
+	}
+	c.harvestAll()
+	c.inShadow = true
+	defer func() { c.inShadow = false }()
+	order := c.dag.topoOrder()
+	for _, k := range c.keptShadows {
+		func() {
+			defer func() {
+				defer func() { recover() }()
+				k.sh.node.Shutdown()
+				os.RemoveAll(k.img)
+			}()
+			if len(c.dag.forks) > 0 {
+				return
+			}
+			h := k.sh.node.SimCore().Hashgraph()
+			fed := 0
+			for _, e := range order {
+				if _, err := h.Store.GetEvent(e.Hash); err == nil {
+					continue
+				}
+				ev := eventFromRecord(e)
+				if err := h.InsertEventAndRunConsensus(ev, true); err != nil {
+					// e.g. an event whose parents the record does not hold: no verdict
+					c.stats.probe("shadow-continuation-insert-refused")
+					return
+				}
+				h.ProcessSigPool()
+				fed++
+			}
+			c.stats.probe("shadow-continuation")
+			for _, d := range k.sh.app.log {
+				want, ok := c.chain[d.Block.Index()]
+				if !ok {
+					continue
+				}
+				if d.Digest != want {
+					c.violate("C11", "agreement-after-recovery", "recovered-image-diverges", "the image of node %d's database at store point %d (%s), bootstrapped and fed the %d events it lacked, delivers block %d with digest %s; the network committed %s", k.victim, k.point, k.phase, fed, d.Block.Index(), d.Digest, want)
+					return
+				}
+			}
+			// and it must not fall behind what the same events gave the others
+			last := -1
+			for _, d := range k.sh.app.log {
+				if d.Block.Index() > last {
+					last = d.Block.Index()
+				}
+			}
+			if v := c.nodes[k.victim]; v.running() && !v.ffDone && v.epoch == 0 {
+				if vl := v.node.GetLastBlockIndex(); last < vl {
+					c.violate("C11", "agreement-after-recovery", "recovered-image-falls-behind", "the image of node %d's database at store point %d (%s), bootstrapped and fed the %d events it lacked, delivered blocks up to %d; the node itself, holding the same events, is at block %d", k.victim, k.point, k.phase, fed, last, vl)
+				}
+			}
+		}()
+	}
+	c.keptShadows = nil
 }
 
 func (c *Cluster) genCrash(g *genState) *Step {
